@@ -213,6 +213,16 @@ Section Verify.
       destruct (load C cdig t) as [hs|e]; try reflexivity; destruct (lh_gens (root_hist hs)); reflexivity.
   Qed.
 
+  (* the reading commands always end with an exit code: no internal error in verify, diff, info, info -sf, flatten *)
+  Theorem readers_total t :
+    (forall d only ip ifl, exists c, o_outcome (snd (verify_like Hb matches C cdig d t only ip ifl)) = Exit c) /\
+    (exists c, o_outcome (snd (info C cdig t)) = Exit c) /\ (forall file, exists c, o_outcome (snd (info_sf C cdig t file)) = Exit c) /\
+    (forall ip ifl, exists c, o_outcome (snd (flatten C cdig t ip ifl)) = Exit c).
+  Proof.
+    repeat split; intros; unfold verify_like, verify_core, info, info_sf, flatten;
+      destruct (load C cdig t) as [hs|e]; try (eexists; reflexivity); destruct (lh_gens (root_hist hs)); eexists; reflexivity.
+  Qed.
+
   (* ---- C09: verify -dh ---- *)
   (* never an internal error: the command always ends with an exit code, 0 or the directory-verification code *)
   Theorem verify_dh_total t f co ro ip ifl :
